@@ -43,6 +43,10 @@ pub const SUPPORTED: &[u8] = &[
     OP_SOCKET, OP_SEND_ZC, OP_SENDMSG_ZC, OP_READ_MULTISHOT, OP_FTRUNCATE, OP_BIND, OP_LISTEN, OP_PIPE,
 ];
 
+pub fn modelled(op: u8) -> bool {
+    SUPPORTED.contains(&op)
+}
+
 pub fn op_name(op: u8) -> &'static str {
     match op {
         OP_NOP => "Nop",
